@@ -128,7 +128,7 @@ def unit(fmt, tokens=False):
         loader = I.getattr_(cls, f"loads_all_{fmt}")
         # token corruption: every whitespace-separated token of every line of the first molecule replaced by a foreign symbol,
         # a bare integer, and a malformed number
-        fam = token_family(I, lines, len(lines) // 2) if tokens else damage_family(len(lines))
+        fam = token_family(I, lines, len(lines) if V.tier == "thorough" else len(lines) // 2) if tokens else damage_family(len(lines))
         d = V.choose(fam, "damage")
         V.witness(lambda ev: {"op": "damage", "format": fmt, "kind": d[0], "line": d[1], "nlines": len(lines), "token": d[2] if tokens else None,
                               "new": d[3] if tokens else None, "signature": f"damage/{fmt}"})
